@@ -20,9 +20,11 @@ TRUSTED = [
 
 
 class Ctx:
-    def __init__(self, prop, tier="quick"):
+    def __init__(self, prop, tier="quick", repo=None):
         self.prop = prop
         self.tier = tier
+        self.repo = repo
+        self.sensitivity = None
         self.obs = []
         self._facts = {}
         self.analysed = {}
@@ -34,8 +36,9 @@ class Ctx:
     # ---- facts
     def facts(self, cfg):
         if cfg not in self._facts:
-            force = bool(os.environ.get("VERIF_NO_CACHE")) or (self.tier == "thorough" and not os.environ.get("VERIF_ALLOW_CACHE"))
-            d, info = build.build(cfg, force=force)
+            force = bool(os.environ.get("VERIF_NO_CACHE")) or (self.tier == "thorough" and self.repo is None
+                                                               and not os.environ.get("VERIF_ALLOW_CACHE"))
+            d, info = build.build(cfg, force=force, repo=self.repo)
             f = Facts(d, info)
             self._facts[cfg] = f
             self.analysed[cfg] = {
@@ -125,6 +128,7 @@ def finish(ctx, level="other"):
             "checker_cmd": "./verif check %s --tier %s" % (ctx.prop, ctx.tier),
             "trusted_base": TRUSTED,
             "analysed": ctx.analysed,
+            "sensitivity_self_test": ctx.sensitivity,
             "exhaustive": False,
         },
         "assumptions": TRUSTED,
@@ -161,3 +165,48 @@ def show(path):
         print("    rule:   %s" % o["rule"])
         print("    detail: %s" % o["detail"])
     return 0
+
+
+def sensitivity(ctx, check_fn):
+    """Thorough tier: run this property's rules over scratch copies of the repository with one catalogue / seeded
+    change applied each, and record which are reported. Nothing here affects the verdict on the real tree."""
+    import shutil
+    import subprocess
+    import tempfile
+    sys.path.insert(0, os.path.join(VERIF, "tools"))
+    import mutants as M
+    cat = [m for m in M.load() if ctx.prop in (m.get("expect") or []) and m.get("kind") != "neutral"]
+    res = {"caught": [], "missed": [], "skipped": []}
+    if not cat:
+        ctx.sensitivity = res
+        return
+    # a fixed path per property: cargo's artefacts for the scratch crates are overwritten, not accumulated
+    scratch = os.path.join(tempfile.gettempdir(), "verif-scratch-%s" % ctx.prop)
+    shutil.rmtree(scratch, ignore_errors=True)
+    os.makedirs(scratch)
+    try:
+        subprocess.run(["rsync", "-a", "--delete", "--exclude", "target", "--exclude", ".git", build.REPO + "/", scratch + "/"], check=True)
+        subprocess.run("git init -q && git add -A && git -c user.email=v@v -c user.name=v commit -qm base", shell=True, cwd=scratch, check=True)
+        for m in cat:
+            err = M.apply(m, scratch)
+            if err:
+                res["skipped"].append({"id": m["id"], "why": err})
+                M.restore(scratch)
+                continue
+            sub = Ctx(ctx.prop, "quick", repo=scratch)
+            try:
+                check_fn(sub)
+                v = [o for o in sub.obs if o["status"] == "violated"]
+                (res["caught"] if v else res["missed"]).append({"id": m["id"], "reported": [o["key"] for o in v][:3]})
+            except build.BuildError as e:
+                res["skipped"].append({"id": m["id"], "why": "does not build: %s" % e})
+            M.restore(scratch)
+    finally:
+        shutil.rmtree(scratch, ignore_errors=True)
+        for cfg in ("E", "D", "X", "Er"):
+            pass
+    ctx.sensitivity = res
+    print("sensitivity self-test: %d caught, %d missed, %d skipped (of %d changes that break %s)" % (
+        len(res["caught"]), len(res["missed"]), len(res["skipped"]), len(cat), ctx.prop))
+    for x in res["missed"]:
+        print("  MISSED by %s rules: %s" % (ctx.prop, x["id"]))
